@@ -1,19 +1,35 @@
 /- GENERATED: instance obligations for one logic, discharged by kernel evaluation.
-   `X ⊆ known`: every failing row is a committed known finding (Ptx/Gen/Known.lean). -/
+   `S` = the logic with its DOCUMENTED tables (Ptx/Sem/Spec.lean); rules, closure, trunk and frames
+   are what the translator read off the code.  `X ⊆ known`: every failing row is a committed
+   known finding (Ptx/Gen/Known.lean, generated from known_findings.json). -/
 import Ptx.Gen.L_KFDE
 import Ptx.Gen.Known
 import Ptx.Sem.Subset
+import Ptx.Props.C01
+import Ptx.Gen.L_FDE
 namespace Ptx.Gen.Obl.KFDE
 open Ptx
 
-theorem tables_total : Gen.KFDE.tablesTotalB = true := by decide +kernel
-theorem rules_exact : subsetB Gen.KFDE.badRules (Known.badRules "KFDE") = true := by decide +kernel
-theorem rules_sound : subsetB Gen.KFDE.unsoundRules (Known.unsoundRules "KFDE") = true := by decide +kernel
-theorem rules_total : subsetB Gen.KFDE.missingRules (Known.missingRules "KFDE") = true := by decide +kernel
-theorem rules_local : Gen.KFDE.nonLocalRules = [] := by decide +kernel
-theorem closure_total : Gen.KFDE.closureTotalB = true := by decide +kernel
-theorem closure_exact : subsetB Gen.KFDE.badClosure (Known.badClosure "KFDE") = true := by decide +kernel
-theorem read_total : Gen.KFDE.readTotalB = true := by decide +kernel
-theorem read_exact : subsetB Gen.KFDE.badRead (Known.badRead "KFDE") = true := by decide +kernel
+/-- a modal / first-order extension has exactly the truth-functional tables of its base (FDE) -/
+theorem base_tables : Gen.KFDE.tables.sameTF Gen.FDE.tables = true := by decide +kernel
+theorem spec_defined : Gen.KFDE.specDefinedB = true := by decide +kernel
+theorem tables_spec : subsetB Gen.KFDE.tableDiff (Known.tableDiff "KFDE") = true := by decide +kernel
+theorem defined_ops : Gen.KFDE.tables.definedOpsBad = [] := by decide +kernel
+theorem tables_total : Gen.KFDE.sem.tablesTotalB = true := by decide +kernel
+theorem rules_exact : subsetB Gen.KFDE.sem.badRules (Known.badRules "KFDE") = true := by decide +kernel
+theorem rules_sound : subsetB Gen.KFDE.sem.unsoundRules (Known.unsoundRules "KFDE") = true := by decide +kernel
+theorem rules_total : subsetB Gen.KFDE.sem.missingRules (Known.missingRules "KFDE") = true := by decide +kernel
+theorem rules_local : Gen.KFDE.sem.nonLocalRules = [] := by decide +kernel
+theorem closure_total : Gen.KFDE.sem.closureTotalB = true := by decide +kernel
+theorem closure_exact : subsetB Gen.KFDE.sem.badClosure (Known.badClosure "KFDE") = true := by decide +kernel
+theorem read_total : Gen.KFDE.sem.readTotalB = true := by decide +kernel
+theorem read_exact : subsetB Gen.KFDE.sem.badRead (Known.badRead "KFDE") = true := by decide +kernel
+theorem sound_core : Gen.KFDE.sem.soundCoreB = true := by decide +kernel
+
+/-- C01 for this logic: a closed tableau reached by any legal derivation has no countermodel. -/
+theorem c01_valid_sound (arg : Argument) (t : Tableau)
+    (hd : Deriv Gen.KFDE.sem.soundPart.noQuantPart (trunk Gen.KFDE.sem arg) t) (hclosed : t.allClosed = true)
+    (M : Struct) (hM : M.Interp Gen.KFDE.sem) (e : Env M.D) (w0 : M.W) : ¬ Countermodel Gen.KFDE.sem M e w0 arg :=
+  Props.C01.C01_valid_sound_partial Gen.KFDE.sem sound_core arg t hd hclosed M hM e w0
 
 end Ptx.Gen.Obl.KFDE
